@@ -179,6 +179,9 @@ func tiffWithOffset(off string, bo binary.ByteOrder) []byte {
 
 var c04OpsCache []c04Op
 
+// c04OtherContents runs the preview / CR3 / XMP entry points on inputs whose contents differ from every seed's
+var c04OtherContents func()
+
 func c04Ops() []c04Op {
 	if c04OpsCache != nil {
 		return c04OpsCache
@@ -212,6 +215,19 @@ func c04Ops() []c04Op {
 	add("DecodeCR3(rich)", func() { mc.Guard(func() { imagemeta.DecodeCR3(bytes.NewReader(byName["cr3-rich-II"])) }) })
 	add("DecodeHeif(rich)", func() { mc.Guard(func() { imagemeta.DecodeHeif(bytes.NewReader(byName["heif-rich-MM"])) }) })
 	add("PreviewCR3", func() { mc.Guard(func() { imagemeta.PreviewCR3(bytes.NewReader(byName["cr3-rich-II"])) }) })
+	{ // other content through the same entry points: a result that aliases recycled memory shows only when the memory is refilled with something else
+		p := gen.CR3FromRecord(gen.MinimalRecord(), gen.CanonicalLayout(), MM)
+		p.Preview = append([]byte("\xff\xd8"), pattern(3000, 'Q')...)
+		p.XPacket = []byte("<x:xmpmeta xmlns:x=\"adobe:ns:meta/\"><rdf:RDF xmlns:rdf=\"http://www.w3.org/1999/02/22-rdf-syntax-ns#\"><rdf:Description xmlns:xmp=\"http://ns.adobe.com/xap/1.0/\" xmp:Rating=\"1\" xmp:Label=\"another packet\"/></rdf:RDF></x:xmpmeta>")
+		other := gen.EncodeBoxes(gen.CR3(p, 0)).B
+		c04OtherContents = func() {
+			mc.Guard(func() { imagemeta.PreviewCR3(bytes.NewReader(other)) })
+			mc.Guard(func() { imagemeta.DecodeCR3(bytes.NewReader(other)) })
+			mc.Guard(func() { xmp.ParseXmp(bytes.NewReader(p.XPacket)) })
+			mc.Guard(func() { xmp.ParseXmp(bytes.NewReader(byName["xmp-dense-tokens"])) })
+		}
+		add("PreviewCR3 + DecodeCR3 + ParseXmp(other contents)", c04OtherContents)
+	}
 	runEP := func(name string, data []byte) func() {
 		for i := range entryPoints {
 			if entryPoints[i].name == name {
@@ -624,6 +640,9 @@ func c04Aliasing(x *mc.Exec) {
 			c04Apply(i*c04Answers + 1)
 		}
 		poisonPools(2)
+	}
+	if later >= 4 {
+		c04OtherContents() // last: whatever memory the entry points recycle now holds other contents
 	}
 	for i, h := range held {
 		var after string
